@@ -115,7 +115,12 @@ class ScaleKernel(Kernel):
             return to_dense(orig_output) * outputscales
         else:
             outputscales = outputscales.view(*outputscales.shape, 1, 1)
-            return orig_output.mul(outputscales)
+            res = orig_output.mul(outputscales)
+            # A LinearOperator treats a one-element tensor as a scalar constant, which drops size-one batch dimensions
+            shape = torch.broadcast_shapes(orig_output.shape, outputscales.shape)
+            if res.shape != shape:
+                res = res.expand(shape)
+            return res
 
     def num_outputs_per_input(self, x1, x2):
         return self.base_kernel.num_outputs_per_input(x1, x2)
